@@ -18,7 +18,7 @@ func init() {
 	ev.Register(&ev.Check{
 		ID:      "C05",
 		Level:   "model_checking",
-		Rule:    "explicit-state BFS over the product (real JSON scanner fed byte-wise through the verif hook) x (reference RFC 8259 PDA), both modes, nesting bounded; in every product state the public Document.Check of the state's shortest history is compared with the reference; plus all strings <= L over the 30-class alphabet (pruned only where both sides are dead) compared three ways (library, reference PDA, encoding/json), plus every 1-edit neighbour of a corpus of structured long texts. A case is non-trivial when the reference and the library were both evaluated on a distinct input that is not dead on its first byte.",
+		Rule:    "explicit-state BFS over the product (real JSON scanner fed byte-wise through the verif hook) x (reference RFC 8259 PDA), both modes, nesting bounded; in every product state the public Document.Check of the state's shortest history, and of that history followed by EVERY ASCII byte value, is compared with the reference; plus all strings <= L over the 30-class alphabet (pruned only where both sides are dead) compared three ways (library, reference PDA, encoding/json), plus every 1-edit neighbour of a corpus of structured long texts. A case is non-trivial when the reference and the library were both evaluated on a distinct input that is not dead on its first byte.",
 		Workers: func(tier string) int { return 16 },
 		Run:     run,
 		Replay:  replay,
